@@ -593,6 +593,10 @@ def m_diag(I, e, args, kws):
         out.shape = Shape((sh.axes[-1],))
     elif sh is not None and len(sh.axes) == 1 and not sh.ell and "diagonal" not in M.norm_text(e.func):
         out.shape = Shape((sh.axes[0], sh.axes[0]))
+    nd_ = len(sh.axes) if (sh is not None and not sh.ell) else x.tag("ndim")
+    if "diagonal" in M.norm_text(e.func) or nd_ == 2 or nd_ is None:
+        # the diagonal of a matrix forgets its off-diagonal entries: what follows depends on the matrix only through that projection
+        out = lossy(I, e, out, x, "diag")
     return out
 
 
@@ -804,6 +808,61 @@ def m_npmatmul(I, e, args, kws):
     return binop(I, e, ast.MatMult(), args[0], args[1])
 
 
+@model("numpy.tensordot")
+def m_tensordot(I, e, args, kws):
+    """np.tensordot(a, b, axes=([i], [j])): contract axis i of a with axis j of b; the remaining axes of a come first, then those of b.
+    For a matrix operand this is a matrix product with that operand transposed where needed."""
+    from .extern import binop, const_int
+    a, b = args[0], args[1]
+    ax = kws.get("axes") or (args[2] if len(args) > 2 else None)
+
+    def one(v):
+        if v is None:
+            return None
+        if v.items is not None and len(v.items) == 1:
+            return const_int(v.items[0])
+        return const_int(v)
+    ia = ib = None
+    if ax is not None and ax.items is not None and len(ax.items) == 2:
+        ia, ib = one(ax.items[0]), one(ax.items[1])
+    elif ax is not None and const_int(ax) == 1:
+        ia, ib = -1, 0
+
+    def as_last(v, i):
+        """v with its contracted axis moved last (matrices only when a move is needed); None if not expressible"""
+        r = v.shape.rank if v.shape is not None and not v.shape.ell else v.tag("ndim")
+        if i is None:
+            return None
+        if i == -1 or (r is not None and i == r - 1):
+            return v
+        if r == 2 and i in (0, -2):
+            t = v.copy(term=mk_term("T", v.term))
+            t.shape = transpose_shape(v.shape)
+            t.items = None
+            return t
+        return None
+
+    def as_first(v, j):
+        r = v.shape.rank if v.shape is not None and not v.shape.ell else v.tag("ndim")
+        if j is None:
+            return None
+        if j == 0 or (r is not None and j == -r):
+            return v if (r is None or r <= 2) else None
+        if r == 2 and j in (1, -1):
+            t = v.copy(term=mk_term("T", v.term))
+            t.shape = transpose_shape(v.shape)
+            t.items = None
+            return t
+        if r == 1 and j in (0, -1):
+            return v
+        return None
+    la, fb = as_last(a, ia), as_first(b, ib)
+    if la is not None and fb is not None:
+        return binop(I, e, ast.MatMult(), la, fb)
+    out = mk([a, b], fresh="FRESH", unit=umul(a.unit, b.unit, 1), tags={"kind": "ndarray", "notstr": True})
+    return out
+
+
 @model("numpy.power")
 def m_nppow(I, e, args, kws):
     from .extern import binop
@@ -953,6 +1012,26 @@ def m_argx(I, e, args, kws):
     if name in ("flatnonzero",):
         out.shape = Shape([None])
         out.tags["ndim"] = 1
+    if name == "argsort" and args and args[0].term is not None:
+        out.tags["argsort_of"] = args[0].term          # the permutation that sorts THIS array
+        out.term = mk_term("argsort", args[0].term)
+    return out
+
+
+@model("numpy.take")
+def m_take(I, e, args, kws):
+    x, idx = args[0], (args[1] if len(args) > 1 else kws.get("indices"))
+    out = mk([a_ for a_ in (x, idx) if a_ is not None], fresh="FRESH", unit=x.unit, sign=x.sign, tags={"kind": "ndarray", "notstr": True})
+    out.frame = x.frame
+    out.shape = x.shape if (idx is not None and idx.tag("argsort_of") is not None) else None
+    if idx is not None and idx.tag("argsort_of") is not None:
+        out.tags["reordered_by"] = idx.term
+        if idx.tag("argsort_of") == x.term:
+            out.tags["sorted"] = True
+            out.tags["sorted_by"] = idx.term
+    for k in ("point", "domain_id", "lives_on"):
+        if x.tag(k) is not None:
+            out.tags[k] = x.tag(k)
     return out
 
 
